@@ -6,7 +6,7 @@ import ast
 import os
 import symtable
 
-MODES = ("unparse", "rename-locals", "swap-compare", "swap-branches", "hoist-returns", "sort-keywords", "alias-imports", "hoist-receivers")
+MODES = ("unparse", "rename-locals", "swap-compare", "swap-branches", "hoist-returns", "sort-keywords", "alias-imports", "hoist-receivers", "rename-private-functions")
 
 
 def _scope_locals(src):
@@ -207,7 +207,89 @@ def _alias_imports(tree):
     return R().visit(tree)
 
 
+def _rename_private_functions(root):
+    """every private (single leading underscore) module-level function and method of the package gets a new name, consistently in all modules:
+    definitions, plain-name uses, attribute accesses and from-imports. Names that are also used for anything else (assigned as a variable or an attribute,
+    parameter names, keyword arguments, spelled in a string constant) are left alone."""
+    files = []
+    for r, d, fs in os.walk(root):
+        d[:] = [x for x in d if x not in ("_vendor", "__pycache__")]
+        for f in fs:
+            if f.endswith(".py"):
+                files.append(os.path.join(r, f))
+    trees = {p: ast.parse(open(p).read()) for p in files}
+    funcs, other = set(), set()
+    for t in trees.values():
+        for n in ast.walk(t):
+            if isinstance(n, ast.ClassDef):
+                for st in n.body:
+                    if isinstance(st, (ast.FunctionDef, ast.AsyncFunctionDef)) and st.name.startswith("_") and not st.name.startswith("__"):
+                        funcs.add(st.name)
+        for st in t.body:
+            if isinstance(st, (ast.FunctionDef, ast.AsyncFunctionDef)) and st.name.startswith("_") and not st.name.startswith("__"):
+                funcs.add(st.name)
+    for t in trees.values():
+        for n in ast.walk(t):
+            if isinstance(n, ast.Name) and isinstance(n.ctx, (ast.Store, ast.Del)):
+                other.add(n.id)
+            elif isinstance(n, ast.Attribute) and isinstance(n.ctx, (ast.Store, ast.Del)):
+                other.add(n.attr)
+            elif isinstance(n, ast.arg):
+                other.add(n.arg)
+            elif isinstance(n, ast.keyword) and n.arg:
+                other.add(n.arg)
+            elif isinstance(n, ast.Constant) and isinstance(n.value, str):
+                for nm in funcs:
+                    if nm in n.value:
+                        other.add(nm)
+            elif isinstance(n, (ast.FunctionDef, ast.AsyncFunctionDef)) and n.name in funcs:
+                # nested functions of that name, or overrides of a dependency's hook (synced_collections calls _save / _load ... by name)
+                pass
+            elif isinstance(n, ast.ClassDef):
+                if n.bases:
+                    # methods of classes with bases may override / be called by the base class under their name: keep
+                    for st in n.body:
+                        if isinstance(st, (ast.FunctionDef, ast.AsyncFunctionDef)):
+                            other.add(st.name)
+    ren = {nm: nm + "_fn" for nm in funcs - other}
+
+    class R(ast.NodeTransformer):
+        def visit_FunctionDef(self, node):
+            self.generic_visit(node)
+            if node.name in ren:
+                node.name = ren[node.name]
+            return node
+        visit_AsyncFunctionDef = visit_FunctionDef
+
+        def visit_Name(self, node):
+            if node.id in ren:
+                node.id = ren[node.id]
+            return node
+
+        def visit_Attribute(self, node):
+            self.generic_visit(node)
+            if node.attr in ren:
+                node.attr = ren[node.attr]
+            return node
+
+        def visit_ImportFrom(self, node):
+            if node.level or (node.module or "").startswith("signac"):
+                for a in node.names:
+                    if a.name in ren:
+                        a.name = ren[a.name]
+            return node
+    for p, t in trees.items():
+        t = R().visit(t)
+        ast.fix_missing_locations(t)
+        out = ast.unparse(t) + "\n"
+        compile(out, p, "exec")
+        open(p, "w").write(out)
+    return len(ren)
+
+
 def transform(mode, root):
+    if mode == "rename-private-functions":
+        return _rename_private_functions(root)
     n = 0
     for r, d, fs in os.walk(root):
         for f in fs:
